@@ -82,7 +82,7 @@ func (m c10mux) Tier(tier string) (uint64, int64) {
 }
 
 func (m c10mux) MandatoryProbes() []string {
-	return append(m.coin.MandatoryProbes(), "ibc_conservation_checked", "ibc_packet_received_and_converted", "ibc_refund_after_timeout", "ibc_refund_after_error_ack", "ibc_quiescence_reached")
+	return append(m.coin.MandatoryProbes(), "ibc_conservation_checked", "ibc_packet_received_and_converted", "ibc_refund_after_timeout", "ibc_refund_after_error_ack", "ibc_quiescence_reached", "ibc_voucher_sent_home:erc20", "multi_log_token_tx")
 }
 
 // Components: what ran real code and what was a stub (evidence file).
@@ -148,10 +148,27 @@ func (m c10mux) Gen(w *e.World, r *e.RNG) e.Step {
 		if r.Chance(0.6) {
 			c = int64(iw.fams[fam].Home)
 		}
+		if r.Chance(0.35) {
+			// send vouchers back home: somebody on the other chain who holds some
+			type holder struct{ fam, c, u int }
+			var hs []holder
+			for fi, fm := range iw.fams {
+				rc := 1 - fm.Home
+				for ui, usr := range iw.users[rc] {
+					if co, tk := iw.holding(fm, rc, usr.Acc); co.Sign() > 0 || tk.Sign() > 0 {
+						hs = append(hs, holder{fi, rc, ui})
+					}
+				}
+			}
+			if len(hs) > 0 {
+				h := hs[r.Intn(len(hs))]
+				fam, c, u = int64(h.fam), int64(h.c), h.u
+			}
+		}
 		co, tk := iw.holding(iw.fams[fam], int(c), iw.users[c][u].Acc)
 		max := new(big.Int).Add(co, tk)
 		amt := big.NewInt(r.Range(1, 5000))
-		if max.Sign() > 0 && r.Chance(0.3) {
+		if max.Sign() > 0 && (r.Chance(0.3) || amt.Cmp(max) > 0) {
 			amt = r.Amount(max) // up to everything
 		}
 		if r.Chance(0.05) {
@@ -372,6 +389,9 @@ func (m c10mux) Exec(w *e.World, st *e.Step) *e.Violation {
 			if iw.fams[fi].Kind == "erc20" && c == iw.fams[fi].Home {
 				w.Stats.Probe("ibc_erc20_converted_on_send")
 			}
+			if c != iw.fams[fi].Home {
+				w.Stats.Probe("ibc_voucher_sent_home:" + iw.fams[fi].Kind)
+			}
 		}
 		return ibcInvariants(w, iw, post, desc)
 	case "relay":
@@ -380,6 +400,9 @@ func (m c10mux) Exec(w *e.World, st *e.Step) *e.Violation {
 			return nil
 		}
 		d := iw.other(p.Src)
+		if fm := iw.fams[p.Fam]; fm.Kind == "erc20" && d == fm.Home && !p.Received && !p.Done && iw.paused(fm) {
+			w.Stats.Probe("ibc_return_home_while_token_paused")
+		}
 		res, err := iw.recv(p)
 		harness(err)
 		w.Stats.Op("ibc_relay", err == nil)
